@@ -208,6 +208,33 @@ fn apply(act: &Act, dg: &[u8], atk: &Attacker, randoms: &(Vec<u8>, Vec<u8>), occ
     }
 }
 
+/// What the endpoint is told to expect, by script letter.  `n` nothing, `o` the peer's fingerprint in the canonical
+/// form, `b` some other certificate's; the rest are *texts related to the right fingerprint that are not it*:
+///   e ""   1 first byte   h first 16 bytes   p first 31 bytes   d all but the last hex digit (odd count)
+///   x one byte too many   l lower case   c without colons   s blanks instead of colons   z non-hex prefix "ZZ:"
+/// `DtlsTransport::new` takes the string as it is (normalisation is `SdpFingerprint::parse`'s job), and the
+/// comparison in `handle_certificate` is string equality with the canonical text — so none of these may connect.
+pub fn expected_variant(c: char, peer: &Certificate, bogus: &str) -> Option<String> {
+    let full = fingerprint(peer);
+    match c {
+        'n' => None, 'o' => Some(full), 'b' => Some(bogus.to_string()),
+        'e' => Some(String::new()), '1' => Some(full[..2].to_string()), 'h' => Some(full[..47].to_string()),
+        'p' => Some(full[..92].to_string()), 'd' => Some(full[..94].to_string()), 'x' => Some(format!("{full}:00")),
+        'l' => Some(full.to_ascii_lowercase()), 'c' => Some(full.replace(':', "")), 's' => Some(full.replace(':', " ")),
+        'z' => Some(format!("ZZ:{full}")),
+        _ => None,
+    }
+}
+pub const EXPECTED_VARIANTS: [char; 10] = ['e', '1', 'h', 'p', 'd', 'x', 'l', 'c', 's', 'z'];
+
+/// the bytes a fingerprint text denotes (RFC 8122 reading, as liberal as `SdpFingerprint::parse`: colons and
+/// ASCII white space carry no information, case does not matter; anything else, or an odd digit count, denotes nothing)
+pub fn denoted_bytes(t: &str) -> Option<Vec<u8>> {
+    let digits: Vec<u8> = t.bytes().filter(|b| *b != b':' && !b.is_ascii_whitespace()).collect();
+    if digits.len() % 2 != 0 || !digits.iter().all(|b| b.is_ascii_hexdigit()) { return None; }
+    digits.chunks(2).map(|c| u8::from_str_radix(std::str::from_utf8(c).ok()?, 16).ok()).collect()
+}
+
 pub struct Outcome { pub lines: Vec<(String, String)>, pub fails: Vec<(String, String)>, pub tags: Vec<String> }
 
 pub async fn run_script(sc: &Script) -> Option<Outcome> { run_script_ticks(sc, 0).await }
@@ -218,7 +245,7 @@ pub async fn run_script_ticks(sc: &Script, max_ticks: u32) -> Option<Outcome> {
     let (cc, scert) = certs();
     let atk = Attacker::new();
     let bogus = fingerprint(&atk.cert);
-    let exp = |c: char, peer: &Certificate| match c { 'o' => Some(fingerprint(peer)), 'b' => Some(bogus.clone()), _ => None };
+    let exp = |c: char, peer: &Certificate| expected_variant(c, peer, &bogus);
     let (exp_c, exp_s) = (exp(sc.ce, &scert), exp(sc.se, &cc));
     let mut c = Recd::new(true, cc, exp_c.clone()).await;
     // impostor servers (the pinned fingerprint stays the genuine server's):
@@ -237,7 +264,7 @@ pub async fn run_script_ticks(sc: &Script, max_ticks: u32) -> Option<Outcome> {
     } else { scert };
     let mut s = Recd::new(false, scert, exp_s.clone()).await;
     // scripts in which an endpoint must refuse: watch what its state channel shows meanwhile
-    let spies = if sc.ce == 'b' || sc.rules.iter().any(|r| matches!(r.act, Act::ForgeFinishedBad | Act::InsertCert | Act::Impostor | Act::ImpostorChain | Act::CertOther | Act::CertOtherResign | Act::FlipSig | Act::FlipKey)) { Some(c.ep.spy()) } else { None };
+    let spies = if sc.ce == 'b' || EXPECTED_VARIANTS.contains(&sc.ce) || sc.rules.iter().any(|r| matches!(r.act, Act::ForgeFinishedBad | Act::InsertCert | Act::Impostor | Act::ImpostorChain | Act::CertOther | Act::CertOtherResign | Act::FlipSig | Act::FlipKey)) { Some(c.ep.spy()) } else { None };
     let (c_src, s_src) = (c.ep.sink_addr, s.ep.sink_addr);
     let mut q_cs: VecDeque<Vec<u8>> = VecDeque::new();
     let mut q_sc: VecDeque<Vec<u8>> = VecDeque::new();
@@ -350,9 +377,12 @@ pub async fn run_script_ticks(sc: &Script, max_ticks: u32) -> Option<Outcome> {
                     // delivered to it (it never asks for one).  Any other way of connecting without the pinned
                     // certificate (a Certificate was delivered but did not match, …) has its own signature below.
                     fails.push(("role:server:connected-though-no-certificate-message-was-ever-requested-or-received".to_string(), text.clone()));
-                } else if !x.shown_cert_fps.contains(e) {
+                } else if denoted_bytes(e).map(|b| b.len() != 32).unwrap_or(true) {
+                    // Connected ⇒ the expected value denotes exactly 32 bytes (and they are the leaf's digest, next arm)
+                    fails.push((format!("role:{role}:connected-though-expected-fingerprint-does-not-denote-a-32-byte-digest:len-{}", e.len()), text.clone()));
+                } else if !x.shown_cert_fps.contains(&denoted_bytes(e).unwrap().iter().map(|b| format!("{b:02X}")).collect::<Vec<_>>().join(":")) {
                     fails.push((format!("role:{role}:connected-without-matching-certificate"), text.clone()));
-                } else if !x.sig_ok_under.contains(e) && role == "client" {
+                } else if !x.sig_ok_under.contains(&denoted_bytes(e).unwrap().iter().map(|b| format!("{b:02X}")).collect::<Vec<_>>().join(":")) && role == "client" {
                     fails.push((format!("role:{role}:connected-without-proof-of-possession"), text.clone()));
                 }
             }
@@ -422,6 +452,14 @@ pub fn scripts(thorough: bool, rng: &mut Rng) -> Vec<Script> {
         let combos: Vec<(char, char)> = if thorough { vec![('n', 'n'), ('o', 'n'), ('b', 'n'), ('o', 'o'), ('o', 'b'), ('n', 'b')] }
             else { vec![(*rng.pick(&['o', 'o', 'n', 'b']), *rng.pick(&['n', 'n', 'o', 'b'])), ('o', 'n')] };
         for (ce, se) in combos { let s = Script { ce, se, rules: t.clone() }; if !v.contains(&s) { v.push(s); } }
+    }
+    // expected values that are related to the right fingerprint but are not its canonical text: alone, and under
+    // the tamperings that leave the genuine certificate in place
+    for ce in EXPECTED_VARIANTS {
+        v.push(Script { ce, se: 'n', rules: vec![] });
+        v.push(Script { ce, se: 'n', rules: vec![r(false, 11, Act::Dup)] });
+        v.push(Script { ce, se: 'n', rules: vec![r(false, 0, Act::ExtraCert)] });
+        if thorough { for t in &tamper { v.push(Script { ce, se: *rng.pick(&['n', 'o', 'b']), rules: t.clone() }); } }
     }
     // random double tampering
     let n = if thorough { 6000 } else { 15 };
